@@ -15,6 +15,8 @@ open Driver
 def dispatch (line : String) : String :=
   match splitTabs line with
   | "iter" :: rest => (handleIter rest).getD "BAD-CASE\t0"
+  | "itercount" :: rest => (handleIterCount rest).getD "BAD-CASE\t0"
+  | "iterstep" :: rest => (handleIterStep rest).getD "BAD-CASE\t0"
   | "recv" :: rest => (handleRecv rest).getD "BAD-CASE\t0"
   | "gen" :: rest => (handleGen rest).getD "BAD-CASE\t0"
   | "netparse" :: rest => (handleNetParse rest).getD "BAD-CASE\t0"
